@@ -74,15 +74,20 @@ def run(ctx):
             jobs.append(dict(kind='stress', flavour=flavour, tag='s%d' % n, cmd=[e, '--mode', 'stress', '--threads', t, '--elements', ne, '--rounds', rounds, '--seed', ctx.seed * 1000 + n]))
 
     def one(j):
+        if ctx.violations:
+            return j, None, 'skipped'       # a witness exists: skip the remaining runs
         r = ctx.run([str(c) for c in j['cmd']], timeout=14400 if thorough else 900, stall_s=90, tag=j['tag'])
-        return j, r
-
-    res = ctx.pmap(one, [j for j in jobs if j['kind'] != 'stress'], jobs=3) + ctx.pmap(one, [j for j in jobs if j['kind'] == 'stress'], jobs=2)
-    kinds = {}
-    for j, r in res:
         what = '%s %s' % (j['flavour'], ' '.join(str(c) for c in j['cmd'][1:]))
         st = ctx.absorb(r, what)
         absorb_ubsan_stderr(ctx, r, what)
+        return j, r, st
+
+    res = ctx.pmap(one, [j for j in jobs if j['kind'] != 'stress'], jobs=3) + ctx.pmap(one, [j for j in jobs if j['kind'] == 'stress'], jobs=2)
+    kinds = {}
+    for j, r, st in res:
+        if r is None:
+            continue
+        what = '%s %s' % (j['flavour'], ' '.join(str(c) for c in j['cmd'][1:]))
         if st == 'stalled':
             ctx.inconclusive_case('stalled: ' + what)
             continue
